@@ -9,15 +9,37 @@ from .rules_tables import spec, variants
 BASICDATA = "garnish_lang_simple_data::basic::data::BasicData"
 
 
-def _arm_bindings(pat):
-    """lid -> field position for the bindings of a tuple-struct arm pattern (top level only)."""
+def _arm_bindings(pat, variant=None):
+    """lid -> field position for the bindings of a tuple-struct arm pattern (top level only).  In an or-pattern every
+    alternative binds the same names, each at its own positions, and the body refers to one canonical binding per name: for
+    `variant` the positions are those of ITS alternative, applied to every binding of that name in the arm."""
     out = {}
     p = pat
     while p.get("k") in ("Ref", "Deref") or (p.get("k") == "Binding" and p.get("sub")):
         p = p["pat"] if p.get("k") in ("Ref", "Deref") else p["sub"]
     if p.get("k") == "Or":
-        # `V1(a, b) | V2(a, b) => ..`: every alternative binds the same names at its own positions
-        for q in p["pats"]:
+        alts = p["pats"]
+        if variant is not None:
+            def alt_variant(q):
+                while q.get("k") in ("Ref", "Deref"):
+                    q = q["pat"]
+                return last(q.get("def") or "") if q.get("k") in ("TupleStruct", "Struct", "Path") else None
+            mine = [q for q in alts if alt_variant(q) == variant]
+            if mine:
+                name2pos = {}
+                q = mine[0]
+                while q.get("k") in ("Ref", "Deref"):
+                    q = q["pat"]
+                if q.get("k") == "TupleStruct":
+                    for i, sub in enumerate(q["pats"]):
+                        for n in walk(sub):
+                            if n.get("k") == "Binding":
+                                name2pos[n.get("name")] = i
+                for n in walk(p):
+                    if n.get("k") == "Binding" and n.get("name") in name2pos:
+                        out[n["lid"]] = name2pos[n["name"]]
+                return out
+        for q in alts:
             out.update(_arm_bindings(q))
         return out
     if p.get("k") == "TupleStruct":
@@ -155,7 +177,7 @@ def trace_sets(F, f):
     arms, m = _variant_arms(F, f)
     out = {}
     for v, arm in arms.items():
-        lid2pos = _arm_bindings(arm["pat"])
+        lid2pos = _arm_bindings(arm["pat"], v)
         s = set()
         for d, c in hirq.calls_in(arm["body"]):
             if d.endswith("BasicData::CloneItem") and c["args"]:
@@ -180,7 +202,7 @@ def remap_sets(F, f):
     arms, m = _variant_arms(F, f)
     out = {}
     for v, arm in arms.items():
-        lid2pos = _arm_bindings(arm["pat"])
+        lid2pos = _arm_bindings(arm["pat"], v)
         s = set()
         rebuilt = None
         for d, c in hirq.calls_in(arm["body"]):
